@@ -473,7 +473,16 @@ func checkCommentLineForCheckIgnore(
 	ruleID string,
 ) bool {
 	fullIgnorePrefix := commentIgnorePrefix + " " + ruleID
-	return strings.HasPrefix(commentLine, fullIgnorePrefix)
+	rest, ok := strings.CutPrefix(commentLine, fullIgnorePrefix)
+	if !ok {
+		return false
+	}
+	// The ruleID must not merely be the prefix of a longer ID, i.e. a comment
+	// ignoring COMMENT_ENUM_VALUE does not ignore COMMENT_ENUM.
+	if rest != "" && (rest[0] == '_' || (rest[0] >= 'A' && rest[0] <= 'Z') || (rest[0] >= '0' && rest[0] <= '9')) {
+		return false
+	}
+	return true
 }
 
 type lintOptions struct {
